@@ -218,7 +218,70 @@ pub fn run(ctx: &mut Ctx) {
       }
     }
   }
+  // ---- device storm: guest-controlled values reach the devices too, and the devices act
+  // on them later, while time passes (the LCD fetching tiles and objects with whatever
+  // LCDC/SCX/SCY/WX/WY/LYC hold at that moment, the DMA engine reading whatever page
+  // was written, the timer). Random register writes interleaved with emulated time, on
+  // memories full of random bytes; a panic is attributed to the unit.
+  let mut storm_writes = 0u64;
+  let mut storm_clocks = 0u64;
+  let storm_units: u64 = if thorough { 64 } else { 16 };
+  for k in 0..storm_units {
+    let u = unit;
+    unit += 1;
+    if !r.ctx.mine_sub(u) {
+      continue;
+    }
+    if let Some((c, _)) = r.ctx.resume {
+      if c == u {
+        continue; // this unit ended the previous incarnation of the worker: reported, not repeated
+      }
+    }
+    let (ct, rc, rac) = [(0x03u8, 0x02u8, 0x03u8), (0x00, 0x00, 0x00), (0x13, 0x02, 0x02), (0x01, 0x01, 0x00)][(k % 4) as usize];
+    let cfg = ((ct as u64) << 16) | ((rc as u64) << 8) | rac as u64;
+    r.ctx.intent(&[u, 0, cfg, 0, 0, 8, 7]);
+    let mut image = support::make_image(ct, rc, rac);
+    let mut rng = Rng::from(&[seed, 0x5702, k]);
+    for i in 0x150..image.len() {
+      image[i] = rng.u8();
+    }
+    support::stamp_header(&mut image, ct, rc, rac);
+    let mut core = support::core_from_image(&image);
+    let mp = &mut core.memory as *mut MemoryAreas;
+    for a in 0x8000u32..0xa000 {
+      memory_write_byte(mp, a as u16, rng.u8());
+    }
+    for a in 0xfe00u32..0xfea0 {
+      memory_write_byte(mp, a as u16, rng.u8());
+    }
+    const LCD_REGS: [u8; 11] = [0x40, 0x41, 0x42, 0x43, 0x45, 0x47, 0x48, 0x49, 0x4a, 0x4b, 0x40];
+    for it in 0..30_000u64 {
+      let (a, v): (u16, u8) = match rng.below(10) {
+        0..=4 => (0xff00 | *rng.pick(&LCD_REGS) as u16, if rng.chance(1, 3) { rng.edgy_u8() } else { rng.u8() }),
+        5 => (0xff00 | *rng.pick(&[0x04u8, 0x05, 0x06, 0x07, 0x0f, 0x00, 0x01, 0x02]) as u16, rng.u8()),
+        6 => (0xff46, rng.u8()),
+        7 => (0xfe00 + rng.below(0xa0) as u16, rng.u8()),
+        8 => (0x8000 + rng.below(0x2000) as u16, rng.u8()),
+        _ => (0xff00 + rng.below(0x100) as u16, rng.u8()),
+      };
+      if a == 0xff02 && v & 0x80 != 0 {
+        continue; // would print on the worker's stdout
+      }
+      r.ctx.intent(&[u, it, cfg, v as u64, a as u64, 8, 7]);
+      memory_write_byte(mp, a, v);
+      let n = 4 * (1 + rng.below(*rng.clone().pick(&[3u64, 30, 120, 600])) as usize);
+      core.memory.run_clock_cycles(crate::timing::ClockCycles(n));
+      let _ = memory_read_byte(mp, a);
+      storm_writes += 1;
+      storm_clocks += n as u64;
+      r.accesses += 1;
+    }
+    r.ctx.distinct_key(hash_words(&[0x5702, k]));
+  }
+  r.ctx.sample("device storm: 30000 random writes per unit to LCD/timer/DMA/joypad/serial registers, OAM and VRAM (random contents), each followed by 4..2400 clocks of emulated time; nothing may panic");
   r.ctx.intent_clear();
+  r.ctx.count("device-storm:register-writes", storm_writes);
+  r.ctx.count("device-storm:clocks-of-emulated-time", storm_clocks);
   r.ctx.count("evaluations", r.accesses);
   r.ctx.count("accesses-skipped(same class as an attributed crash)", r.skipped);
   r.ctx.count("configurations", configs);
@@ -237,6 +300,15 @@ pub fn on_crash(intent: &[u64], text: &str, status: &str, _err: &str) -> Option<
     return Some((
       format!("C11:{}:loader:{}:{}", mbc, status.replace(' ', ""), text),
       format!("loading a supported configuration (type {:02X} rom {:02X} ram {:02X}) killed the process", ct, (cfg >> 8) as u8, cfg as u8),
+    ));
+  }
+  if intent[5] == 8 {
+    return Some((
+      format!("C11:device-storm:{}:{}", status.replace(' ', ""), text),
+      format!(
+        "cartridge type {:02X}: after write #{} ({:04X} <- {:02X}) of a random sequence of device-register/OAM/VRAM writes interleaved with emulated time, the emulator killed the process",
+        ct, intent[1], intent[4], intent[3]
+      ),
     ));
   }
   let region = REGION_NAMES[(intent[6] as usize).min(8)];
